@@ -58,7 +58,8 @@ XSeeds == <<
         args |-> <<<<"l", <<V1, V2, V1>>>>, <<"l", <<VStr("p"), VStr("p"), VStr("q")>>>>, <<"l", <<V1, None, VX>>>>>>],   \* long form
     [kind |-> "cols", how |-> "dict", cols |-> <<"x", "p", "q">>, args |-> <<<<"l", <<V1, V2>>>>, <<"l", <<V1, V2>>>>, <<"l", <<VX, None>>>>>>],   \* wide form
     [kind |-> "cols", how |-> "dict", cols |-> <<"a", "b">>, args |-> <<<<"l", <<VNaN(1), V2>>>>, <<"l", <<None, VInf(1)>>>>>>],
-    [kind |-> "cols", how |-> "dict", cols |-> <<"a">>, args |-> <<<<"l", <<V1, V2, V1, V2, V1, V2, None>>>>>>]           \* seven rows
+    [kind |-> "cols", how |-> "dict", cols |-> <<"a">>, args |-> <<<<"l", <<V1, V2, V1, V2, V1, V2, None>>>>>>],          \* seven rows
+    [kind |-> "cols", how |-> "zip", cols |-> <<"key", "a">>, args |-> <<<<"l", <<VX, V2>>>>, <<"l", <<V1, None>>>>>>]      \* a column called 'key'
 >>
 GetMenu     == <<<<"a", None>>, <<"q", None>>, <<"zz", V2>>>>
 GetAttrMenu == <<<<"a", <<>>>>, <<"zz", <<>>>>, <<"zz", <<V2>>>>, <<"q", <<None>>>>>>
@@ -89,6 +90,7 @@ IfNoneMenu  == <<[none |-> <<"none">>, kws |-> <<<<"a", <<"s", V2>>>>>>],
                  [none |-> <<"vals", <<V1, VX>>>>, kws |-> <<<<"a", <<"s", None>>>>, <<"b", <<"s", None>>>>>>],
                  [none |-> <<"isstr">>, kws |-> <<<<"b", <<"f", XF("ident", <<"zz">>)>>>>>>],                  \* TypeError only if some b is a string
                  [none |-> <<"none">>, kws |-> <<<<"z", <<"f", XF("ident", <<"x">>)>>>>>>],
+                 [none |-> <<"none">>, kws |-> <<<<"a", <<"f", XF("list", <<"key">>)>>>>>>],                    \* key: the row's cell if there is such a column, else 'a'
                  [none |-> <<"none">>, kws |-> <<>>]>>
 DoMenu      == <<[fs |-> <<XG("tuple", <<"a">>)>>, cs |-> <<"a", "b">>, star |-> TRUE],                         \* b's step sees the new a
                  [fs |-> <<XG("tuple", <<>>), XG("list", <<>>)>>, cs |-> <<"a">>, star |-> TRUE],
